@@ -35,6 +35,7 @@ import (
 	"time"
 
 	"github.com/mgtv-tech/redis-GunYu/config"
+	"github.com/mgtv-tech/redis-GunYu/pkg/redis/client"
 	"github.com/mgtv-tech/redis-GunYu/pkg/redis/client/common"
 	"github.com/mgtv-tech/redis-GunYu/pkg/vfdoubles"
 	"github.com/mgtv-tech/redis-GunYu/pkg/vfutil"
@@ -57,6 +58,7 @@ type vfoScn struct {
 	NoFollow  bool   // plain mode with handleMoveErr/handleAskErr switched off in the configuration
 	Fault     string // er | cb | ac injected at request FaultAt ("" = none)
 	FaultAt   int
+	CpBatch   bool // only the checkpoint ticker flushes: data commands and checkpoint HSETs share one batch
 	StallOn   bool // hold node StallNode until every command routed elsewhere has executed (the sender is then idle)
 	StallNode int
 	Resume    bool // plain modes: EnableResumeFromBreakPoint, the checkpoint offset is stored on the target
@@ -107,7 +109,11 @@ func vfoRun(scn *vfoScn) (*vfoResult, error) {
 			vfdoubles.Sched{At: 0, Ev: vfdoubles.MigEv{Kind: "x", Dst: cpNew}})
 	}
 	if scn.Fault != "" {
-		sc = append(sc, vfdoubles.Sched{At: scn.FaultAt, Ev: vfdoubles.MigEv{Kind: "F", Key: scn.Fault}})
+		fn := 0
+		if scn.CpBatch {
+			fn = scn.StallNode + 1 // the fault hits the data node, not the checkpoint node
+		}
+		sc = append(sc, vfdoubles.Sched{At: scn.FaultAt, Ev: vfdoubles.MigEv{Kind: "F", Key: scn.Fault, Slot: fn}})
 	}
 	sort.SliceStable(sc, func(i, j int) bool { return sc[i].At < sc[j].At })
 	d.SetSchedule(sc)
@@ -123,11 +129,39 @@ func vfoRun(scn *vfoScn) (*vfoResult, error) {
 	if scn.CpRetry || scn.Resume {
 		cfg.UpdateCheckpointTicker = 25 * time.Millisecond
 	}
+	if scn.CpBatch || scn.CpRetry {
+		// only the checkpoint ticker flushes: the data commands are in the flush that carries the position
+		cfg.BatchTicker = time.Hour
+		cfg.BatchCmdCount = 1000
+	}
 	cfg.Redis.Type = config.RedisTypeCluster
 	cfg.Redis.Otype = config.RedisTypeCluster
 	cfg.Redis.Addresses = config.SliceString(d.Addrs())
 	cfg.Redis.ClusterOptions = &config.RedisClusterOptions{HandleMoveErr: !scn.NoFollow, HandleAskErr: !scn.NoFollow}
 	ro := NewRedisOutput(cfg) // transactional + cluster: switches redirect following off
+	cpStored := func() bool {
+		_, ex, _ := d.Snapshot()
+		for _, e := range ex {
+			if len(e.Keys) == 1 && e.Keys[0] == "vfcp" && strings.HasSuffix(e.Field, "_offset") {
+				return true
+			}
+		}
+		return false
+	}
+	if scn.StallOn && !scn.CpBatch {
+		// sendAof closes the client as soon as the sender loop has returned; a position the sender
+		// dispatched just before (asynchronously, through the node pipeline) would race with that
+		// Close. Keep the client open until such a write has arrived, or 200 ms have passed without
+		// one (the wait only gives a wrong write time to show, it never creates a verdict).
+		rc := ro.cfg.Redis
+		ro.newRedisConn = func(ctx context.Context) (client.Redis, error) {
+			cl, err := client.NewRedis(rc)
+			if err != nil {
+				return nil, err
+			}
+			return &vfoHoldClose{Redis: cl, until: cpStored}, nil
+		}
+	}
 
 	var stream []byte
 	ids := make([]int, 0, len(scn.Cmds))
@@ -173,8 +207,22 @@ func vfoRun(scn *vfoScn) (*vfoResult, error) {
 			}
 		}
 		go func() {
-			for i := 0; i < 40000 && !d.AllExecuted(others); i++ {
-				time.Sleep(250 * time.Microsecond)
+			if scn.CpBatch {
+				// the data node answers only after the checkpoint node has applied the offset - or,
+				// when no offset comes although the data node has been holding its commands for
+				// 300 ms, without it: that is the repaired sender (position only after the data went
+				// through); the time only bounds how long a correct sender is kept waiting
+				held := 0
+				for i := 0; i < 40000 && !cpStored() && held < 1200; i++ {
+					if d.HeldCount() > 0 {
+						held++
+					}
+					time.Sleep(250 * time.Microsecond)
+				}
+			} else {
+				for i := 0; i < 40000 && !d.AllExecuted(others); i++ {
+					time.Sleep(250 * time.Microsecond)
+				}
 			}
 			for i := 0; i < 40000 && d.HeldCount() == 0; i++ {
 				time.Sleep(250 * time.Microsecond)
@@ -256,7 +304,20 @@ func vfoRun(scn *vfoScn) (*vfoResult, error) {
 	return res, nil
 }
 
-type vfoViol struct{ what, detail string }
+// vfoHoldClose delays Close of the real cluster client (see vfoRun).
+type vfoHoldClose struct {
+	client.Redis
+	until func() bool
+}
+
+func (h *vfoHoldClose) Close() error {
+	for i := 0; i < 400 && !h.until(); i++ {
+		time.Sleep(500 * time.Microsecond)
+	}
+	return h.Redis.Close()
+}
+
+type vfoViol struct{ what, detail, mechanism string }
 
 func vfoMonitor(scn *vfoScn, res *vfoResult) []vfoViol {
 	var out []vfoViol
@@ -275,13 +336,13 @@ func vfoMonitor(scn *vfoScn, res *vfoResult) []vfoViol {
 		}
 		for i := range e.Keys {
 			if e.Holder[i] != e.Node {
-				out = append(out, vfoViol{"exec-not-at-holder", fmt.Sprintf("cmd %d executed at node %d, key lives at node %d", e.ID, e.Node, e.Holder[i])})
+				out = append(out, vfoViol{"exec-not-at-holder", fmt.Sprintf("cmd %d executed at node %d, key lives at node %d", e.ID, e.Node, e.Holder[i]), ""})
 			}
 		}
 		count[e.ID]++
 		k := keyOf[e.ID]
 		if count[e.ID] > 1 && scn.Txn {
-			out = append(out, vfoViol{"txn-double-exec", fmt.Sprintf("cmd %d executed %d times within one run", e.ID, count[e.ID])})
+			out = append(out, vfoViol{"txn-double-exec", fmt.Sprintf("cmd %d executed %d times within one run", e.ID, count[e.ID]), ""})
 		} else {
 			if count[e.ID] > 1 {
 				// plain mode: the sender re-sent a failed batch (a repeated suffix): the
@@ -293,7 +354,7 @@ func vfoMonitor(scn *vfoScn, res *vfoResult) []vfoViol {
 				}
 			}
 			if has[k] && e.ID < last[k] {
-				out = append(out, vfoViol{"per-key-inversion", fmt.Sprintf("key %s: cmd %d took effect after cmd %d", scn.Keys[k], e.ID, last[k])})
+				out = append(out, vfoViol{"per-key-inversion", fmt.Sprintf("key %s: cmd %d took effect after cmd %d", scn.Keys[k], e.ID, last[k]), ""})
 			}
 			// no gap: every earlier command of this key has executed already — unless
 			// the run reports an error (a reported restart covers the hole: in pipelined
@@ -306,7 +367,7 @@ func vfoMonitor(scn *vfoScn, res *vfoResult) []vfoViol {
 					break
 				}
 				if count[id] == 0 {
-					out = append(out, vfoViol{"per-key-gap", fmt.Sprintf("key %s: cmd %d took effect although cmd %d never did", scn.Keys[k], e.ID, id)})
+					out = append(out, vfoViol{"per-key-gap", fmt.Sprintf("key %s: cmd %d took effect although cmd %d never did", scn.Keys[k], e.ID, id), ""})
 					break
 				}
 			}
@@ -319,7 +380,7 @@ func vfoMonitor(scn *vfoScn, res *vfoResult) []vfoViol {
 	if res.Final == "eof" && !res.Stalled {
 		for _, c := range scn.Cmds {
 			if count[c.ID] == 0 {
-				out = append(out, vfoViol{"lost-command", fmt.Sprintf("run ended without a target error but cmd %d was never executed", c.ID)})
+				out = append(out, vfoViol{"lost-command", fmt.Sprintf("run ended without a target error but cmd %d was never executed", c.ID), ""})
 				break
 			}
 		}
@@ -332,7 +393,7 @@ func vfoMonitor(scn *vfoScn, res *vfoResult) []vfoViol {
 			if strings.HasSuffix(e.Field, "_runid") {
 				hasRunID = true
 			} else if strings.HasSuffix(e.Field, "_offset") && !hasRunID {
-				out = append(out, vfoViol{"checkpoint-offset-without-runid", "hset vfcp " + e.Field + " took effect, but the run id / version fields of this run were never stored (the failed first attempt carried them, the re-sent batch did not)"})
+				out = append(out, vfoViol{"checkpoint-offset-without-runid", "hset vfcp " + e.Field + " took effect, but the run id / version fields of this run were never stored (the failed first attempt carried them, the re-sent batch did not)", ""})
 				break
 			}
 		}
@@ -351,14 +412,48 @@ func vfoMonitor(scn *vfoScn, res *vfoResult) []vfoViol {
 	if maxCp >= 0 {
 		for _, c := range scn.Cmds {
 			if res.Ends[c.ID] <= maxCp && count[c.ID] == 0 {
-				out = append(out, vfoViol{"checkpoint-ahead-of-execution", fmt.Sprintf("stored offset %d covers cmd %d (ends at %d), which never took effect; run ended with %s (%v)",
-					maxCp, c.ID, res.Ends[c.ID], res.Final, res.Err)})
+				// mechanism, read off the global trace: was the covering offset applied before the
+				// node's failing answer to this command (both travelled in one batch, node batches
+				// run concurrently), or was it sent after that answer (sender went on after a failure)?
+				cpPos, failPos, k := -1, -1, 0
+				var cpExecs []vfdoubles.ClusterExec
+				for _, e := range res.Execs {
+					if e.ID < 0 {
+						cpExecs = append(cpExecs, e)
+					}
+				}
+				for i, ev := range res.Trace {
+					p := strings.Split(ev, ":")
+					if p[0] != "q" || len(p) != 5 {
+						continue
+					}
+					if p[2] == "-1" && p[4] == "x" {
+						if k < len(cpExecs) && cpPos < 0 && strings.HasSuffix(cpExecs[k].Field, "_offset") {
+							var n int64
+							fmt.Sscan(cpExecs[k].Value, &n)
+							if n >= res.Ends[c.ID] {
+								cpPos = i
+							}
+						}
+						k++
+					} else if p[2] == fmt.Sprint(c.ID) && p[4] != "x" && failPos < 0 {
+						failPos = i
+					}
+				}
+				mech := "offset-sent-after-failed-answer"
+				if failPos < 0 {
+					mech = "command-never-reached-a-node"
+				} else if cpPos >= 0 && cpPos < failPos {
+					mech = "offset-applied-before-failed-answer"
+				}
+				out = append(out, vfoViol{"checkpoint-ahead-of-execution", fmt.Sprintf("stored offset %d covers cmd %d (ends at %d), which never took effect (%s); run ended with %s (%v)",
+					maxCp, c.ID, res.Ends[c.ID], mech, res.Final, res.Err), mech})
 				break
 			}
 		}
 	}
 	if res.Stalled {
-		out = append(out, vfoViol{"sender-stalled", fmt.Sprintf("sendAof neither finished the stream nor returned (err=%v)", res.Err)})
+		out = append(out, vfoViol{"sender-stalled", fmt.Sprintf("sendAof neither finished the stream nor returned (err=%v)", res.Err), ""})
 	}
 	return out
 }
@@ -389,6 +484,10 @@ func vfoGen(r *vfutil.Rand, name string, force string) *vfoScn {
 		scn.CpRetry = true
 	case "nofollow-block":
 		scn.NoFollow = true
+	case "cpbatch-block":
+		scn.CpBatch, scn.Resume, scn.Fault = true, true, "er"
+	case "cpbatch-pipe":
+		scn.CpBatch, scn.Resume, scn.Fault, scn.Pipeline = true, true, "er", true
 	case "nofollow-pipe":
 		scn.NoFollow, scn.Pipeline = true, true
 	case "fault":
@@ -408,8 +507,13 @@ func vfoGen(r *vfutil.Rand, name string, force string) *vfoScn {
 	if !scn.Txn && !scn.CpRetry && (force == "nofollow-pipe" || force == "nofollow-block" || r.Bool()) {
 		scn.Resume = true
 	}
+	cpNode := vfdoubles.ClusterSlot("vfcp") * 3 / 16384
 	var tags []string
-	if scn.CpRetry {
+	if scn.CpBatch {
+		// all data on one node that is not the checkpoint key's node
+		scn.StallOn, scn.StallNode = true, (cpNode+1)%3
+		tags = vfoTagsOnNode(scn.StallNode, 2, name)
+	} else if scn.CpRetry {
 		tags = vfoTagsOnNode(vfdoubles.ClusterSlot("vfcp")*3/16384, 2, name)
 		scn.BC = 50
 	} else if scn.Txn {
@@ -436,6 +540,9 @@ func vfoGen(r *vfutil.Rand, name string, force string) *vfoScn {
 	if scn.NoFollow {
 		scn.BC = r.Range(2, 3)
 		n = r.Range(6, 10)
+	}
+	if scn.CpBatch {
+		n, scn.FaultAt = 6, 0
 	}
 	for i := 0; i < n; i++ {
 		t := r.Intn(len(tags))
@@ -478,6 +585,34 @@ func vfoGen(r *vfutil.Rand, name string, force string) *vfoScn {
 		if force == "nofollow-pipe" {
 			at = 0
 			scn.StallOn, scn.StallNode = true, own
+			// the commands of the moved slot come last in the stream: when their batch is answered
+			// (MOVED, after the stall) everything else has been received and the sender loop is idle
+			inTag := func(k int) bool {
+				for _, x := range tagKeys[t] {
+					if x == k {
+						return true
+					}
+				}
+				return false
+			}
+			var first, lastPart []vfoCmd
+			for _, c := range scn.Cmds {
+				if inTag(c.Key) {
+					lastPart = append(lastPart, c)
+				} else {
+					first = append(first, c)
+				}
+			}
+			if len(lastPart) == 0 {
+				lastPart = append(lastPart, vfoCmd{Key: tagKeys[t][0]})
+			}
+			if len(first) == 0 {
+				first = append(first, vfoCmd{Key: tagKeys[(t+1)%len(tags)][0]})
+			}
+			scn.Cmds = append(first, lastPart...)
+			for i := range scn.Cmds {
+				scn.Cmds[i].ID = i + 1
+			}
 		}
 		if !scn.Txn && !scn.NoFollow && r.Bool() {
 			scn.During = append(scn.During, vfdoubles.Sched{At: at, Ev: vfdoubles.MigEv{Kind: "g", Slot: slot, Dst: dst}})
@@ -528,6 +663,9 @@ func vfoOne(t *testing.T, s *vfutil.Session, idx int, scn *vfoScn) {
 	switch {
 	case scn.Txn && scn.Cross:
 		cls = "crossslot"
+	case scn.CpRetry:
+		// the position batch is answered MOVED to an unreachable node once, the re-sent queue goes through
+		cls, pers = "redirect", "once"
 	case faulted:
 		cls, pers = "other", "once"
 		if scn.Pipeline {
@@ -592,7 +730,7 @@ func vfoOne(t *testing.T, s *vfutil.Session, idx int, scn *vfoScn) {
 		}
 		seen[v.what] = true
 		s.Violate(v.what, v.detail, map[string]interface{}{
-			"scenario": fmt.Sprintf("%+v", *scn), "mode": mode, "final": res.Final, "err": fmt.Sprint(res.Err),
+			"scenario": fmt.Sprintf("%+v", *scn), "mode": mode, "final": res.Final, "err": fmt.Sprint(res.Err), "mechanism": v.mechanism,
 			"trace": strings.Join(res.Trace, " "),
 		})
 	}
@@ -612,7 +750,7 @@ func TestVerifC19Out(t *testing.T) {
 	idx := 0
 	// every mode with a redirect / cross-slot batch at least a few times
 	for _, f := range []string{"txn-block", "txn-block", "txn-block", "txn-pipe", "txn-pipe", "txn-cross", "txn-cross",
-		"nofollow-block", "nofollow-pipe", "fault", "fault", "fault", "fault", "fault", "fault"} {
+		"nofollow-block", "nofollow-pipe", "cpbatch-block", "cpbatch-pipe", "fault", "fault", "fault", "fault", "fault", "fault"} {
 		vfoOne(t, s, idx, vfoGen(r.Fork(), fmt.Sprintf("f%d", idx), f))
 		idx++
 	}
